@@ -57,7 +57,8 @@ ASSUMPTIONS = [
     'hand-made futures are never shared between tasks (the k-th await of the t-th scheduled _async_ref task has id (t,k)); dependencies: '
     'only param.bind(async_fn, src.param.x) on ONE source parameter of another object (every source change re-evaluates every async '
     'reference of the target, as _sync_refs does); ONE kind of synchronous reference: to the parameter x of a second source object '
-    'that never changes (so _sync_refs has something to step over; what a synchronous reference does when ITS source changes is C08)',
+    'that never changes (so _sync_refs has something to step over; what a synchronous reference does when ITS source changes is C08), '
+    'directly or through a bound function that raises param.Skip (no value yet: the assignment still supersedes a pending task)',
     'NOT modelled: real timing; sync generator functions (_to_async_gen runs next() in a thread pool via asyncio.to_thread); event loops '
     'other than asyncio\'s FIFO loop and user-supplied async_executor; the no-running-loop path of async_executor (run_until_complete); the '
     're-scheduling of _async_ref while the instance is uninitialised (unreachable on a running loop: the constructor finishes before the '
@@ -91,6 +92,7 @@ RULE = ('quick: corpus (the witness schedules of the repaired defects) + directe
         'the observation is compared with the model and checked by the oracle. non-trivial = at least one result of an awaitable was '
         'applied; distinct = distinct canonical case')
 COVERAGE_TARGETS = ['bump:steps-over-sync-reference-first-in-refs', 'bump:steps-over-sync-reference', 'assign:sync-reference:cancels-registered',
+                    'assign:skipping-reference:cancels-registered',
                     'again:while-linked', 'again:after-unlink', 'again:earlier-task-of-same-function-not-started',
                     'rx:complete:superseded-generator-between-yields', 'rx:set:generator', 'trigger:watcher-assigns:cancels-registered', 'trigger:watcher-assigns:unlinks',
                     'trigger:linked-parameter:cancels-registered', 'trigger:plain-parameter', 'step:result-rejected', 'complete:rejected-value', 'bump:while-task-registered', 'bump:also-reschedules-independent-reference', 'bump:no-dependent-reference',
@@ -314,6 +316,11 @@ async def _drive_param(case, loop):
                 elif e['src'] == 'agen':
                     last_fn[e['p']] = agen_fn(len(e['v']), e.get('dep', False))
                     setattr(t, name, last_fn[e['p']])
+                elif e['src'] == 'skip':
+                    # a synchronous reference (it has a dependency) whose evaluation raises param.Skip: no value yet
+                    def skipper(x):
+                        raise param.Skip
+                    setattr(t, name, param.bind(skipper, src2.param.x))
                 elif e['src'] == 'sync':
                     # a synchronous reference to the second source object (`x` there is e['v'][0] for good)
                     setattr(t, name, src2.param.x)
@@ -457,6 +464,8 @@ def _assign(p, src, tid, plain_idx):
         return {'e': 'assign', 'p': p, 'src': 'plain', 'v': [100 + plain_idx]}
     if src == 'sync':
         return {'e': 'assign', 'p': p, 'src': 'sync', 'v': [SYNC_VALUE]}
+    if src == 'skip':
+        return {'e': 'assign', 'p': p, 'src': 'skip', 'v': []}
     n = 1 if src == 'coro' else int(src[4:] or 2)
     return {'e': 'assign', 'p': p, 'src': 'coro' if src == 'coro' else 'agen', 'v': _values(tid, n)}
 
@@ -577,7 +586,7 @@ def _shadow_tasks(events):
             if _is_async(e):
                 links[e['p']] = fns[e['p']] = (len(e['v']), bool(e.get('dep')))
                 out.append((len(out), len(e['v'])))
-            elif e['src'] == 'sync':
+            elif e['src'] in ('sync', 'skip'):
                 links[e['p']] = (0, False)          # linked, never re-evaluated by a change of `src`
         elif e['e'] == 'bump' and any(d for _, d in links.values()):
             for n, _ in list(links.values()):
@@ -610,14 +619,15 @@ def _dep_schedules(tier, mover=None, sync=False):
                     continue
                 extras = (None, 0) + ((1,) if second is not None and not quick else ())
                 if sync:
-                    extras = (None, 1) if quick else (None, 0, 1, 'S0', 'C1')
+                    extras = (None, 1, 'K0') if quick else (None, 0, 1, 'S0', 'C1', 'K0', 'K1')
                 for plain_p in extras:
                     base = [dict(_assign(0, k0, 0, 0), dep=(mover is None))]
                     if sync:
                         base = [_assign(1, 'sync', 0, 0)] + base if second[1] else base + [_assign(1, 'sync', 0, 0)]
                     elif second is not None:
                         base.append(dict(_assign(1, second[0], 1, 0), dep=second[1]))
-                    extra = {None: [], 'S0': [_assign(0, 'sync', 0, 0)], 'C1': [_assign(1, 'coro', 1, 0)]}.get(plain_p)
+                    extra = {None: [], 'S0': [_assign(0, 'sync', 0, 0)], 'C1': [_assign(1, 'coro', 1, 0)],
+                             'K0': [_assign(0, 'skip', 0, 0)], 'K1': [_assign(1, 'skip', 0, 0)]}.get(plain_p)
                     if extra is None:
                         extra = [_assign(plain_p, 'plain', 0, 0)]
                     movable = [mover or {'e': 'bump'}] * nb + extra
@@ -762,7 +772,7 @@ def _hook_schedules(tier):
 
 def _random_param_case(rng, max_assign):
     n = rng.randint(1, max_assign)
-    pool = ['coro', 'coro', 'agen1', 'agen2', 'agen3', 'plain'] + (['sync', 'sync'] if rng.random() < 0.3 else [])
+    pool = ['coro', 'coro', 'agen1', 'agen2', 'agen3', 'plain'] + (['sync', 'sync', 'skip'] if rng.random() < 0.3 else [])
     srcs = [rng.choice(pool) for _ in range(n)]
     params = [rng.randrange(NP) for _ in range(n)]
     items, tid, plain = [], 0, 0
@@ -772,7 +782,7 @@ def _random_param_case(rng, max_assign):
         chains[0].append(a)
         if s == 'plain':
             plain += 1
-        elif s != 'sync':
+        elif s not in ('sync', 'skip'):
             ks = list(range(len(a['v'])))
             if rng.random() < 0.2:
                 rng.shuffle(ks)
